@@ -489,8 +489,9 @@ def check(rep: Report, tier: str, seed: int) -> None:
         "tape contract exp(i(phi+pi/2)) = -sin(phi) + i cos(phi) (validated: deviation < 1e-15)",
         "PCHIP is not differentiable in the samples at flat points: there only finiteness is checked",
         "differentiation through real Pulser waveform objects is not exercised",
-        "states inside a run are normalised; EvolveStateVector on an unnormalised input (in-place normalisation, gradients off by the "
-        "norm) is outside the property and only recorded (info_unnormalised_input)",
+        "un-normalised initial states (accepted by StateVector / SVBackend; reachable as soon as the initial state is itself optimised): "
+        "parameter gradients are off by 1/||psi|| - finding F-frechet-1, reproduced by c30_frechet.oracle_backward / "
+        "oracle_unnormalised_run on every run (info_unnormalised_input keeps the old measurement)",
     ]
     t0 = time.time()
     lean_stage(rep, PROP_MODULE, AUDIT, thorough=(tier == "thorough"))
